@@ -11,6 +11,7 @@ DECIDED = [
     "LOCK: bin state (page_cursor, active_pages, free_chunks) and page alloc_count are touched only under the bin's lock (init / clean-up exempt); the two lowest-level functions require the caller's lock of the same bin and never drop it; lock and unlock are paired on every path",
     "PAIR: every non-NULL chunk handed out increments its own page's alloc_count exactly once; a free decrements exactly once",
     "METRICS (under PAGE-RELEASE): bytes_active adds page->alloc_count * bin->size for every page of the active list and for the working page, nothing else; the purge window of a released page covers the whole page (NUM: page_end >= page + page size, page_start <= page + header)",
+    "PAGE-RELEASE/tags-erased: every page handed back to the system (s_aligned_free, in the free path and at destroy) has its header wiped with aws_secure_zero first - plain stores before free() are dead stores the optimiser removes (found D19, fixed)",
     "PAGE-RELEASE: an empty page is released exactly when alloc_count == 0 and it is not the working page, after its chunks were purged from the free list, it was removed from active_pages and its tags were erased; nothing touches it afterwards",
     "CLASSIFY: small/large decided only against s_max_bin_size; free goes to a bin only when both page tags match; page binding writes both tags and the bin; size-class table is 32*2^i, sorted, ends at s_max_bin_size, all sizes and the page header are multiples of 16",
     "REALLOC/CALLOC: the copy of old_size bytes is dominated by old_size <= new_size and precedes the free of the old block; calloc zeroes exactly the allocation size",
@@ -175,7 +176,7 @@ def pairing(R, fns):
         R.check(ok, "PAIR", "free:counts-the-chunks-own-page", where(f, decs[0]), "the page decremented is the page containing the freed chunk")
         # keep-or-release: a chunk not released with its page goes back on the free list
         pushes = [e for e in f.calls("aws_array_list_push_back") if (RU.strip_addr(f, RU.arg(f, e.node, 0)) or {}).get("f") == "free_chunks"]
-        frees = f.calls("s_aligned_free")
+        frees = f.calls(page_free_fns(fns))
 
         def tr2(e, s):
             if any(e is p for p in pushes):
@@ -191,10 +192,24 @@ def pairing(R, fns):
             R.check(argstr(f, p.node, 1) == "addr", "PAIR", "free:pushes-freed-chunk", where(f, p), "the freed address is what is recycled")
 
 
+def page_free_fns(fns):
+    """s_aligned_free and the static helpers that release the page they are given on every path"""
+    out = {"s_aligned_free"}
+    for name, g in fns.items():
+        if name == "s_aligned_free" or len(g.params) != 1:
+            continue
+        cs = g.calls("s_aligned_free")
+        if len(cs) == 1 and argstr(g, cs[0].node, 0, addr=False) == g.params[0]["n"]:
+            ts = Typestate(g, 0, lambda e, s: 1 if e is cs[0] else s)
+            if ts.exit_states == {1}:
+                out.add(name)
+    return out
+
+
 def page_release(R, fns, P=None):
     f = fns["s_sba_free_to_bin"]
     dom = dominators(f)
-    frees = f.calls("s_aligned_free")
+    frees = f.calls(page_free_fns(fns))
     R.require(len(frees) == 1, "free_to_bin: expected one page release")
     if not frees:
         return
@@ -280,21 +295,35 @@ def page_release(R, fns, P=None):
     for e in deact:
         gk = [f.show(f.d(c)) for c, p, b in RU.guards(f, e, dom) if p]
         R.check(any("==" in g and pg in g for g in gk), "PAGE-RELEASE", "removes-that-page", where(f, e), "the entry removed is the released page (%s)" % gk)
-    st = [e for e in f.field_accesses(rec="page_header", field=("tag", "tag2"), modes=("w",)) if ev_dominates(f, e, fr, dom)]
-    erased = set()
-    for e in st:
-        a = assignment_of(f, e)
-        v = a["a"][1] if a else None
-        while v is not None and f.d(v)["k"] == "bin" and f.d(v)["op"] == "=":
-            v = f.d(v)["a"][1]
-        if v is not None and f.is_const(RU.uncast(f, v)) == 0:
-            erased.add(e.node["f"])
-    R.check(erased == {"tag", "tag2"}, "PAGE-RELEASE", "tags-erased", where(f, fr), "both tags erased before the page is released", "tags not erased before release (%s): a later large block at this address would be mistaken for a small one" % sorted(erased))
+    erase_before_free(R, fns)
     later = RU.dead_after(f, fr, pg)
     R.check(not later, "PAGE-RELEASE", "dead-after-release", where(f, fr), "page not touched after release", "page used after release at %s" % [x.line for x in later][:3])
     # after releasing the page the freed chunk must not be recycled: the release path returns
     pushes = [e for e in RU.reach_from(f, fr) if e.kind == "call" and e.node.get("callee") == "aws_array_list_push_back"]
     R.check(not pushes, "PAGE-RELEASE", "no-recycle-after-release", where(f, fr), "the chunk of a released page is not pushed on the free list")
+
+
+def erase_before_free(R, fns):
+    """PAGE-RELEASE/tags-erased: the header of every page handed back to the system is wiped in a way the compiler must
+    keep.  s_sba_free decides `small block` from the tags it finds at the page base of ANY pointer; a stale header left in
+    released memory makes a later large block look like a small one.  A plain store to memory that is passed to free()
+    next is a dead store (gcc removes it at -O1 and above), so only aws_secure_zero - whose barrier is decided under C01
+    SECURE-ZERO - or a volatile access counts."""
+    hdr = 32
+    n = 0
+    for name, f in sorted(fns.items()):
+        dom = dominators(f)
+        for fr in f.calls("s_aligned_free"):
+            n += 1
+            pgv = argstr(f, fr.node, 0, addr=False)
+            wipes = [e for e in f.calls({"aws_secure_zero"}) if argstr(f, e.node, 0, addr=False) == pgv and (f.is_const(RU.arg(f, e.node, 1)) or 0) >= hdr and ev_dominates(f, e, fr, dom)]
+            plain = [e for e in f.field_accesses(rec="page_header", field=("tag", "tag2"), modes=("w",)) if ev_dominates(f, e, fr, dom)]
+            R.check(bool(wipes), "PAGE-RELEASE", "tags-erased:%s" % name, where(f, fr), "the page header is wiped with aws_secure_zero before the page is released",
+                    "the page handed to s_aligned_free in %s keeps its tags: %s. A large block later placed over that address is taken for a small block of the dead page (released onto a free list, handed out again, never returned to the parent)" % (
+                        name, "the plain stores `tag = tag2 = 0` right before free() are dead stores, which the optimiser removes" if plain else "nothing erases them"))
+    R.require(n >= 1, "no page release (s_aligned_free) found")
+    sites = sum(len(g.calls(page_free_fns(fns))) for nm, g in fns.items() if nm not in page_free_fns(fns))
+    R.require(sites >= 3, "only %d page release sites found (confirmed: free path, destroy x2)" % sites)
 
 
 def metrics(R, P, fns):
@@ -433,7 +462,7 @@ def realloc_calloc(R, fns):
 
 def destroy(R, fns):
     f = fns["s_sba_clean_up"]
-    frees = f.calls("s_aligned_free")
+    frees = f.calls(page_free_fns(fns))
     R.check(len(frees) == 2, "DESTROY", "frees-active-and-working-pages", "%s()" % f.name, "two page releases: per active page and the working page", "expected 2 page releases, found %d" % len(frees))
     loops = [b for b in f.blocks.values() if b.term == "for" and b.cond is not None]
     conds = [f.show(b.cond) for b in loops]
@@ -456,6 +485,7 @@ def destroy(R, fns):
 
 
 MUTANTS = [
+    {"name": "page-header-erased-with-plain-stores", "file": FILE, "expect": "PAGE-RELEASE", "old": "    aws_secure_zero(page, sizeof(struct page_header));\n    s_aligned_free(page);", "new": "    page->tag = page->tag2 = 0;\n    s_aligned_free(page);"},
     {"name": "purge-window-ends-before-the-last-chunk", "file": FILE, "expect": "PAGE-RELEASE", "old": "        uint8_t *page_end = page_start + AWS_SBA_PAGE_SIZE;", "new": "        uint8_t *page_end = (uint8_t *)page + aws_small_block_allocator_page_size_available(NULL);"},
     {"name": "active-pages-counted-as-full", "file": FILE, "expect": "PAGE-RELEASE", "old": "            struct page_header *page = page_addr;\n            used += page->alloc_count * bin->size;\n        }\n        if (bin->page_cursor) {", "new": "            struct page_header *page = page_addr;\n            (void)page;\n            used += ((AWS_SBA_PAGE_SIZE - sizeof(struct page_header)) / bin->size) * bin->size;\n        }\n        if (bin->page_cursor) {"},
     {"name": "free-outside-lock", "file": FILE, "expect": "LOCK",
